@@ -91,6 +91,7 @@ type snap struct {
 }
 
 type engine struct {
+	t0  time.Time
 	t   *testing.T
 	r   *simkit.Run
 	c   cfg
@@ -162,6 +163,7 @@ func (e *engine) run() {
 		return
 	}
 	e.w = w
+	e.t0 = time.Now()
 	defer cleanup()
 	defer w.close()
 	if err := e.makeReaders(); err != nil {
@@ -186,11 +188,17 @@ func (e *engine) run() {
 		Invariant: e.observe,
 		Idle: func() time.Duration {
 			if e.inflight > 0 || e.w.sw.NumPending() > 0 {
-				return 50*time.Millisecond + skew
+				return 20*time.Millisecond + skew
 			}
 			return 0
 		},
-		Done:     func() bool { return e.started >= e.c.ops && e.inflight == 0 },
+		Done: func() bool {
+			if time.Since(e.t0) > simTimeCap {
+				r.Probe("run.sim_time_cap")
+				return true
+			}
+			return e.started >= e.c.ops && e.inflight == 0
+		},
 		StepTime: func() time.Duration { return time.Millisecond + skew },
 	}
 	sched.Run()
@@ -313,6 +321,25 @@ func (e *engine) observe() {
 		r.State(id, s.loaded, s.rv.Role, s.leo-min64(s.leo, s.rv.HW), s.rv.HW-min64(s.rv.HW, s.rv.CheckpointHW), s.ret.LocalRetentionThroughSeq > 0, s.ret.PhysicalRetentionThroughSeq > 0, len(s.present) > 0)
 	}
 	r.Logf("obs%d%s", idx, sb.String())
+	// C06 is decided by machinesim; the same watermark order observed on the real
+	// reactors is only counted here (reported, never a C10 violation).
+	for _, id := range w.ids {
+		s := cur[id]
+		if !s.loaded {
+			continue
+		}
+		if s.rv.CheckpointHW > s.rv.HW {
+			r.Probe("c06_observed.checkpoint_above_hw")
+		}
+		if s.rv.HW > s.rv.LEO {
+			r.Probe("c06_observed.hw_above_leo")
+		}
+		if idx > 0 {
+			if p := e.snaps[idx-1][id]; p.loaded && p.rv.Role == s.rv.Role && p.rv.Leader == s.rv.Leader && p.view == s.view && s.rv.HW < p.rv.HW {
+				r.Probe("c06_observed.hw_regressed")
+			}
+		}
+	}
 	if idx > 0 {
 		e.checkStep(e.snaps[idx-1], cur, idx)
 	}
